@@ -9,7 +9,7 @@ import subprocess
 from .. import runner, explore, coll, gen, target, findings, evidence
 
 RULE = ('All multisets with c in 0..3 roCreates, d in 0..3 roDeletes, o in 0..2 others (a roStoryAppend and a roReplace, '
-        'which subclasses RunningOrder), running-order ID uniform or differing in exactly one member (each member in turn), '
+        'which subclasses RunningOrder), running-order ID uniform or differing - another ID, or a blank one - in exactly one member (each member in turn), '
         'the empty list, x allow_incomplete in {False, True} x two supply orders x message-ID layout {grouped by type, types interleaved in '
         'message-ID order, repeated roCreates/roDeletes being the very same document}, enumerated completely inside a fresh '
         'interpreter per flag set {python, python -O}. Oracle: accepted <=> uniform ID and c == 1 and d <= 1 and '
@@ -25,7 +25,7 @@ def cases(tier):
         for d in range(0, cmax + 1):
             for o in range(0, omax + 1):
                 n = c + d + o
-                for odd in [None] + list(range(n)):
+                for odd in [None] + list(range(n)) + [-1 - k for k in range(n)]:     # -1-k: member k carries a BLANK roID
                     for allow in (False, True):
                         for rev in (False, True):
                             if rev and n < 2:
@@ -58,7 +58,7 @@ def build(c, d, o, odd, rev, layout='grouped'):
     kinds = ['create'] * c + ['delete'] * d + (['append', 'replace'][:o])
     if layout == 'interleaved':
         for k, kind in enumerate(_interleave(kinds)):
-            rid = 'RO-OTHER' if odd == k else gen.RO_ID
+            rid = 'RO-OTHER' if odd == k else '' if odd == -1 - k else gen.RO_ID
             mid += 7
             text = {'create': lambda: gen.ro_text([gen.story_xml('A', 0)], ro_id=rid, msg_id=mid),
                     'delete': lambda: gen.msg_ro_delete(ro_id=rid, msg_id=mid),
@@ -69,7 +69,7 @@ def build(c, d, o, odd, rev, layout='grouped'):
             docs.reverse()
         return docs
     for k, kind in enumerate(kinds):
-        rid = 'RO-OTHER' if odd == k else gen.RO_ID
+        rid = 'RO-OTHER' if odd == k else '' if odd == -1 - k else gen.RO_ID
         if not (layout == 'identical' and k > 0 and kinds[k - 1] == kind):
             mid += 7
         if kind == 'create':
